@@ -189,4 +189,7 @@ ScriptB == [t \in {1, 2} |-> IF t = 1 THEN <<O("addconv", "c1"), O("query", "-")
 ScriptC == [t \in {1, 2, 3} |-> IF t = 1 THEN <<O("addfn", "f1"), O("use", "u"), O("query", "-")>>
                                  ELSE IF t = 2 THEN <<O("use", "u"), O("addconv", "c1"), O("getfn", "-")>>
                                  ELSE <<O("getstate", "-"), O("addfn", "f3"), O("use", "u")>>]
+ScriptD == [t \in {1, 2, 3} |-> IF t = 1 THEN <<O("addfn", "f1"), O("use", "u"), O("query", "-"), O("getstate", "-")>>
+                                 ELSE IF t = 2 THEN <<O("use", "u"), O("addconv", "c1"), O("getfn", "-"), O("addfn", "f2")>>
+                                 ELSE <<O("getstate", "-"), O("addfn", "f3"), O("use", "v"), O("addconv", "c2")>>]
 =============================================================================
